@@ -177,6 +177,31 @@ func runC09(c *engine.Ctx) {
 		feats["timestamp"] = true
 	}
 
+	// input class of known finding D13: an omitempty string field given as null (or empty) next to one of its aliases
+	nullMainAlias := false
+	doc.Walk("", func(_ string, n *gen.Node) {
+		if n.Kind != gen.KMap {
+			return
+		}
+		isNull := func(k string) bool {
+			v := n.Get(k)
+			return v != nil && (v.Kind == gen.KNull || (v.Kind == gen.KStr && v.S == ""))
+		}
+		if (isNull("key") && (n.Has("id") || n.Has("identifier"))) || (isNull("label") && n.Has("name")) {
+			nullMainAlias = true
+		}
+	})
+	// input class of known finding D14: the mapping form of cache carrying disabled: true plus other settings
+	disabledCacheMapping := false
+	doc.Walk("", func(_ string, n *gen.Node) {
+		if n.Kind == gen.KMap {
+			if cv := n.Get("cache"); cv != nil && cv.Kind == gen.KMap && len(cv.Keys) > 1 {
+				if d := cv.Get("disabled"); d != nil && d.Kind == gen.KBool && d.B {
+					disabledCacheMapping = true
+				}
+			}
+		}
+	})
 	nhops := 1 + p.Draw(4, "cfg:hops")
 	prev := p0
 	var hopFmts []string
@@ -189,6 +214,12 @@ func runC09(c *engine.Ctx) {
 		cls := fmt.Sprintf("hop %s", f)
 		if f == "yaml" && mergeKey {
 			cls = "hop yaml, a mapping key equal to <<"
+		}
+		if nullMainAlias && !(f == "yaml" && mergeKey) {
+			cls += " [null or empty key/label beside its alias]"
+		}
+		if disabledCacheMapping && f == "json" {
+			cls += " [cache mapping with disabled: true]"
 		}
 		data, err := marshalAs(c, f, prev)
 		if err != nil {
@@ -237,7 +268,7 @@ func runC09(c *engine.Ctx) {
 			c.Fail("C09.reparse", "CommandStep.UnmarshalJSON", "CommandStep.UnmarshalJSON rejects the step's own JSON: %v\n%s", uerr, truncate(string(b), 1200))
 		}
 		if d, cp := gen.DiffClass(maskSources(dataView(cs)), maskSources(dataView(cs2)), "CommandStep", "CommandStep"); d != "" {
-			c.Fail("C09.diverged", "CommandStep.UnmarshalJSON "+refineClass(cp, d), "CommandStep.UnmarshalJSON(json.Marshal(step)) differs from step: %s\n%s", d, truncate(string(b), 1200))
+			c.Fail("C09.diverged", "CommandStep.UnmarshalJSON "+refineClass(cp, d)+map[bool]string{true: " [null or empty key/label beside its alias]"}[nullMainAlias]+map[bool]string{true: " [cache mapping with disabled: true]"}[disabledCacheMapping], "CommandStep.UnmarshalJSON(json.Marshal(step)) differs from step: %s\n%s", d, truncate(string(b), 1200))
 		}
 		c.Probe("standalone_command_steps")
 		if len(cs.Plugins) > 0 {
